@@ -126,7 +126,11 @@ impl<const B: Word> Repr<B> {
             if fract.is_zero() {
                 int
             } else {
-                exponent -= fract_digits as isize;
+                exponent = match exponent.checked_sub(fract_digits as isize) {
+                    Some(e) => e,
+                    // the scale is too close to isize::MIN to account for the fractional digits
+                    None => return Err(ParseError::InvalidDigit),
+                };
                 int * UBig::from_word(B).pow(fract_digits) + fract
             }
         } else {
